@@ -64,6 +64,15 @@ def builtin_corpus():
     c(['assert', False, f('p', a, b), 'compiled'], ['assert', False, f('p', b, b), 'compiled'], ['assert', True, f('p', a), 'builtin'],
       ['start', 0, 'q', 'p', [v(0), v(0)], 'compiled'], ['next', 0], ['next', 0], ['clear'], ['qall', 'p', [v(0), v(1)]])
     c(['assert', False, f('p', v(0), f('f', v(0))), 'builtin'], ['start', 0, 'q', 'p', [a, v(0)], 'call'], ['next', 0], ['next', 0])
+    # term objects built before a clear() are reused after it; [] in its spellings
+    nil = ['a', '[]']
+    for pol in [{'fact': 'held', 'pat': 'table', 'nil_fact': 'atom', 'nil_pat': 'ATOM_NIL'},
+                {'fact': 'table', 'pat': 'held', 'nil_fact': 'makelist', 'nil_pat': 'atom'},
+                {'fact': 'table', 'pat': 'table', 'nil_fact': 'compiled', 'nil_pat': 'atom'}]:
+        c(['assert', False, f('p', a), 'api'], ['qall', 'p', [a]], ['clear'], ['assert', False, f('p', a), 'builtin'],
+          ['assert', False, f('p', nil), 'api'], ['assert', False, f('p', f('f', nil, b)), 'compiled'], ['qall', 'p', [a]],
+          ['qall', 'p', [nil]], ['start', 0, 'r', f('p', f('f', nil, b)), 'builtin'], ['next', 0], ['retractall', f('p', a), 'builtin'])
+        L[-1]['objects'] = pol
     return L + D.dbprog_corpus()
 
 def model_expr(case):
@@ -106,7 +115,7 @@ def nontrivial(case, io):
 def describe(case):
     if case.get('kind') == 'dbprog':
         return D.prog_describe(case)
-    return [D.show_event(e) for e in case['events']]
+    return [D.show_event(e) for e in case['events']] + (['term objects: %r' % case['objects']] if case.get('objects') else [])
 
 def shrink(case):
     if case.get('kind') == 'dbprog':
